@@ -50,6 +50,8 @@ VBound(m, e, s) == [t |-> "bound", i |-> m, env |-> e, self |-> s]
 VBuiltin(s) == [t |-> "builtin", s |-> s]
 VUndef   == [t |-> "undef"]
 
+Abs(x) == IF x < 0 THEN 0 - x ELSE x
+Limit == 1073741824          \* TLC integers are 32-bit: cases that leave this range are skipped, not judged
 Truthy(v) == CASE v.t = "bool" -> v.b
                [] v.t = "int"  -> v.i # 0
                [] v.t = "str"  -> v.s # ""
@@ -85,9 +87,10 @@ InnermostK(k, kinds) == IF \E j \in 1..Len(k) : k[j].kind \in kinds
 (* ---------------- names ---------------- *)
 (* the chain of scopes visible from the current activation: its own vars, then the environments of the lexically
    enclosing activations (by serial), finally the unit scope (serial 0) *)
-RECURSIVE FindEnv(_, _)
-FindEnv(ser, name) == IF name \in DOMAIN envs[ser] THEN ser
-                      ELSE IF ser = 0 THEN -1 ELSE FindEnv(envs[ser].lex__.i, name)
+RECURSIVE FindEnvIn(_, _, _)
+FindEnvIn(es, ser, name) == IF name \in DOMAIN es[ser] THEN ser
+                            ELSE IF ser = 0 THEN -1 ELSE FindEnvIn(es, es[ser].lex__.i, name)
+FindEnv(ser, name) == FindEnvIn(envs, ser, name)
 IsTemp(name) == name \in ToSet(Case(c).temps)      \* names of compiler temporaries (lexical: they start with %)
 LookupIn(ser, name) == LET e == FindEnv(ser, name) IN IF e = -1 THEN VUndef ELSE envs[e][name]
 Lookup(name) == LookupIn(Act.ser, name)
@@ -102,7 +105,7 @@ Val(tk) == CASE tk.k = "int"  -> VInt(tk.i)
 (* assignment: the nearest scope on the chain that declares the name; temporaries and undeclared names of a
    method are local to the activation; undeclared names at unit level are created there *)
 SetVar(es, ser, name, v) ==
-  LET e == FindEnv(ser, name)
+  LET e == FindEnvIn(es, ser, name)
       tgt == IF e = -1 \/ IsTemp(name) THEN ser ELSE e
   IN [es EXCEPT ![tgt] = (name :> v) @@ es[tgt]]
 Declare(es, ser, name) == IF name \in DOMAIN es[ser] THEN es ELSE [es EXCEPT ![ser] = (name :> VUndef) @@ es[ser]]
@@ -153,16 +156,19 @@ Next1(es2) == GoK(AdvK(Kont), es2, heap, out)
 (* unit start: bind top-level methods/classes/builtins in the unit scope, run class static initialisers of
    top-level classes lazily (at first start), then run %unit_init *)
 TopDecls == SelectSeq(Rows, LAMBDA r : r.parent = 0 /\ ~IsMarker(r))
-Builtins == {"print", "range", "len"}
+Builtins == {"print", "range", "len", "out"}
 UnitScope ==
-  LET named == {r \in ToSet(TopDecls) : r.op \in {"method_decl", "class_decl"} /\ r.name # "%unit_init"} IN
+  \* every method is callable by its name (static methods of Java classes included); top-level classes by theirs
+  LET named == {r \in ToSet(TopDecls) : r.op = "class_decl"}
+               \cup {r \in ToSet(Rows) : r.op = "method_decl" /\ r.name \notin {"%unit_init", "%class_sinit", "__init__"}} IN
   [n \in Builtins \cup {r.name : r \in named} \cup {"lex__"} |->
      IF n = "lex__" THEN VInt(0)
      ELSE IF \E r \in named : r.name = n
           THEN LET r == CHOOSE x \in named : x.name = n IN IF r.op = "method_decl" THEN VFun(r.id, 0) ELSE VCls(r.id)
           ELSE VBuiltin(n)]
-UnitInit == CHOOSE r \in ToSet(TopDecls) : r.op = "method_decl" /\ r.name = "%unit_init"
-HasUnitInit == \E r \in ToSet(TopDecls) : r.op = "method_decl" /\ r.name = "%unit_init"
+StartName == IF Case(c).start = "" THEN "%unit_init" ELSE Case(c).start
+UnitInit == CHOOSE r \in ToSet(Rows) : r.op = "method_decl" /\ r.name = StartName
+HasUnitInit == \E r \in ToSet(Rows) : r.op = "method_decl" /\ r.name = StartName
 TopClasses == SelectSeq(TopDecls, LAMBDA r : r.op = "class_decl")
 StaticInits == LET f(r) == FindMethod(r.id, "%class_sinit") IN
                SelectSeq([j \in 1..Len(TopClasses) |-> [cls |-> TopClasses[j].id, m |-> f(TopClasses[j])]], LAMBDA x : x.m # 0)
@@ -205,7 +211,9 @@ BinOp(op, a, b) ==
   CASE op = "+" -> IF IsNum(a) /\ IsNum(b) THEN VInt(AsInt(a) + AsInt(b))
                    ELSE IF a.t = "str" /\ b.t = "str" THEN VStr(a.s \o b.s) ELSE VUndef
     [] op = "-" -> IF IsNum(a) /\ IsNum(b) THEN VInt(AsInt(a) - AsInt(b)) ELSE VUndef
-    [] op = "*" -> IF IsNum(a) /\ IsNum(b) THEN VInt(AsInt(a) * AsInt(b)) ELSE VUndef
+    [] op = "*" -> IF IsNum(a) /\ IsNum(b)
+                   THEN (IF Abs(AsInt(a)) < 32768 /\ Abs(AsInt(b)) < 32768 THEN VInt(AsInt(a) * AsInt(b)) ELSE [t |-> "overflow"])
+                   ELSE VUndef
     [] op = "==" -> VBool(VEq(a, b))
     [] op = "!=" -> VBool(~VEq(a, b))
     [] op = "is" -> VBool(VEq(a, b))
@@ -229,7 +237,10 @@ Assign ==
          v == IF Cur.operator = "" THEN a
               ELSE IF Cur.operand2_tok.k = "empty" THEN UnOp(Cur.operator, a)
               ELSE BinOp(Cur.operator, a, Val(Cur.operand2_tok))
-     IN IF v.t = "undef" THEN Fail("assign_" \o ToString(Cur.id)) ELSE Next1(SetVar(envs, Act.ser, Cur.target, v))
+     IN IF v.t = "undef" THEN Fail("assign_" \o ToString(Cur.id))
+        ELSE IF v.t = "overflow" \/ (v.t = "int" /\ Abs(v.i) >= Limit)
+        THEN /\ status' = "skip:overflow" /\ steps' = steps + 1 /\ UNCHANGED <<c, stack, envs, heap, out, nser>>
+        ELSE Next1(SetVar(envs, Act.ser, Cur.target, v))
 
 Decl == /\ Cur.op \in {"variable_decl", "global_stmt", "nonlocal_stmt", "pass_stmt", "parameter_decl", "import_stmt", "from_import_stmt"}
         /\ Next1(IF Cur.op = "variable_decl" THEN Declare(envs, Act.ser, Cur.name) ELSE envs)
@@ -264,6 +275,16 @@ ForIn == /\ Cur.op \in {"forin_stmt", "for_value_stmt"}
                         SetVar(envs, Act.ser, Cur.name, es[Top.it + 1]), heap, out)
                ELSE GoK(PushK(AdvK(Kont), Cur.else_body, "plain"), envs, heap, out)
 
+(* for (init_body; condition_prebody; condition; update_body) body *)
+For == /\ Cur.op = "for_stmt"
+       /\ CASE Top.phase = 0 -> GoK(PushK(SetTopK(Kont, [Top EXCEPT !.phase = 1]), Cur.init_body, "plain"), envs, heap, out)
+            [] Top.phase = 1 -> GoK(PushK(SetTopK(Kont, [Top EXCEPT !.phase = 2]), Cur.condition_prebody, "plain"), envs, heap, out)
+            [] Top.phase = 2 -> LET v == IF Cur.condition_tok.k = "empty" THEN VBool(TRUE) ELSE Val(Cur.condition_tok) IN
+                                IF v.t = "undef" THEN Fail("cond_" \o ToString(Cur.id))
+                                ELSE IF Truthy(v) THEN GoK(PushK(SetTopK(Kont, [Top EXCEPT !.phase = 3]), Cur.body, "loop"), envs, heap, out)
+                                ELSE GoK(AdvK(Kont), envs, heap, out)
+            [] Top.phase = 3 -> GoK(PushK(SetTopK(Kont, [Top EXCEPT !.phase = 1]), Cur.update_body, "plain"), envs, heap, out)
+
 Break == /\ Cur.op = "break_stmt"
          /\ LET j == InnermostK(Kont, {"loop"}) IN
             IF j <= 1 THEN Fail("stray_break") ELSE GoK(AdvK(SubSeq(Kont, 1, j - 1)), envs, heap, out)
@@ -297,7 +318,7 @@ CallValue(f, pos, named, target) ==
                  /\ envs' = (nser :> EnvFor(BindArgs(ctor, pos, named), 0, self)) @@ envs
                  /\ nser' = nser + 1 /\ steps' = steps + 1 /\ UNCHANGED <<c, out, status>>
     [] f.t = "builtin" ->
-         CASE f.s = "print" -> GoK(AdvK(Kont), IF target = "" THEN envs ELSE SetVar(envs, Act.ser, target, VNone), heap,
+         CASE f.s \in {"print", "out"} -> GoK(AdvK(Kont), IF target = "" THEN envs ELSE SetVar(envs, Act.ser, target, VNone), heap,
                                    Append(out, [j \in 1..Len(pos) |-> Val(pos[j])]))
            [] f.s = "len" ->
                 LET a == Val(pos[1]) IN
@@ -383,6 +404,9 @@ FieldWrite ==
   /\ Cur.op = "field_write"
   /\ LET r == Receiver(Cur.receiver_object_tok)  v == Val(Cur.source_tok) IN
      IF r.t # "ref" \/ v.t = "undef" THEN Fail("field_write_" \o ToString(Cur.id))
+     \* a numeric field of an array addresses an element (array literals of the JavaScript and PHP frontends)
+     ELSE IF heap[r.i].kind \in {"array", "tuple"} /\ Cur.field_tok.k = "int" /\ Cur.field_tok.i >= 0 /\ Cur.field_tok.i <= Len(heap[r.i].elems)
+     THEN GoK(AdvK(Kont), envs, [heap EXCEPT ![r.i].elems = SetElem(@, Cur.field_tok.i, v)], out)
      ELSE GoK(AdvK(Kont), envs, [heap EXCEPT ![r.i].fields = (Cur.field :> v) @@ @], out)
 FieldRead ==
   /\ Cur.op = "field_read"
@@ -392,12 +416,12 @@ FieldRead ==
           IF v.t = "undef" THEN Fail("no_such_field_" \o Cur.field) ELSE Next1(SetVar(envs, Act.ser, Cur.target, v))
 
 Known == {"assign_stmt", "variable_decl", "global_stmt", "nonlocal_stmt", "pass_stmt", "parameter_decl", "import_stmt", "from_import_stmt",
-          "method_decl", "class_decl", "if_stmt", "while_stmt", "forin_stmt", "for_value_stmt", "break_stmt", "continue_stmt", "return_stmt",
+          "method_decl", "class_decl", "if_stmt", "while_stmt", "for_stmt", "forin_stmt", "for_value_stmt", "break_stmt", "continue_stmt", "return_stmt",
           "call_stmt", "object_call_stmt", "new_array", "new_record", "array_write", "array_read", "record_write", "field_write", "field_read"}
 Unknown == /\ Cur.op \notin Known /\ Fail("unknown_operation_" \o Cur.op)
 
 Step == /\ stack # << >> /\ ~AtEnd
-        /\ (Assign \/ Decl \/ MethodDecl \/ ClassDeclNested \/ If \/ While \/ ForIn \/ Break \/ Continue \/ Return \/ Call \/ ObjectCall
+        /\ (Assign \/ Decl \/ MethodDecl \/ ClassDeclNested \/ If \/ While \/ For \/ ForIn \/ Break \/ Continue \/ Return \/ Call \/ ObjectCall
             \/ NewArray \/ NewRecord \/ ArrayWrite \/ ArrayRead \/ RecordWrite \/ FieldWrite \/ FieldRead \/ Unknown)
 
 Next == /\ status = "run" /\ steps < MaxSteps
@@ -413,6 +437,7 @@ Plain(v) == CASE v.t = "int" -> [t |-> "int", i |-> v.i]
 OutPlain == [j \in 1..Len(out) |-> [k \in 1..Len(out[j]) |-> Plain(out[j][k])]]
 Verdict == IF status = "done" THEN (IF OutPlain = Case(c).expected THEN "" ELSE "output_differs")
            ELSE IF status = "run" /\ steps >= MaxSteps THEN "diverges"
+           ELSE IF status = "skip:overflow" THEN "skipped_overflow"
            ELSE IF status # "run" THEN status ELSE ""
 Finished == status # "run" \/ steps >= MaxSteps
 Report == Finished =>
